@@ -147,4 +147,13 @@ theorem source_buffered_chunk_is_the_filled_prefix (b : Nat) (buf : List (Option
       match acc with | [] => .fin | v :: rest => .chunk b (v :: rest) :=
   GenThms.Proto.chunkOut_fill b buf acc
 
+/-- **the announced length is the number of elements the chunk then yields, as in the source**: `len()` of the chunk's value
+iterator is `initial_len - current_idx` (no underflow); `next` yields while `current_idx < initial_len` and stops exactly
+there (`source_chunk_values_stop_at_initial_len`, `source_chunk_values_take_the_slot`), and the buffered pull announces the
+filled prefix (`source_buffered_chunk_is_the_filled_prefix`); for the consuming kinds `Taken::size_hint` is `len - idx` and
+`Taken::next` yields exactly while `idx < len` (`GenThms/Own.lean`: `taken_size_hint`, `taken_next_some/none`) -/
+theorem source_chunk_len_is_what_is_left {ρ' : Type} (k : Nat) (it : RSP.BufferedIter) (h : it.current_idx ≤ it.initial_len) :
+    (GenP.ChunkIt.len k it : RSP.PF ρ' _) = .ret (.norm (it.initial_len - it.current_idx)) :=
+  GenThms.Proto.chunk_len k it h
+
 end Orx.Props.C03
